@@ -265,7 +265,7 @@ def _run(spec, prop, tier, seed, replay_path, wd):
         docs, safes, m = info[t["tid"]]
         if spec["nontrivial"](docs):
             nontrivial.add(E.sha(docs))
-        if mv == "violated":
+        if mv == "violated" and pv != "violated":      # (both violated: the specification mirrors a defect of the library - reported below)
             path = write_replay(prop, docs, safes, {"note": "MODEL violates the formula"})
             raise E.MachineryError(f"the specification violates the property formula on a recorded evaluation (replay={path})")
         structural = bool(t["issues"]) and spec.get("issues_matter", False)
